@@ -14,7 +14,7 @@ Extraction "model.ml"
   sqrt_precomp get_point_from_x chain_exp_candidate chain_exp_root
   bw_generator bw_identity bw_add bw_double bw_neg bw_sub bw_add_mixed bw_smul bw_affine
   bw_bytes bw_bytes_uncompressed bw_equal bw_set_bytes bw_set_bytes_uncompressed
-  bw_map_to_scalar bw_normalize bw_is_on_curve bw_elements_to_bytes
+  bw_map_to_scalar bw_normalize bw_batch_normalize bw_is_on_curve bw_elements_to_bytes
   bw_batch_to_bytes_uncompressed bw_batch_map_to_scalar subgroup_check
   gen_points c_weights c_config c_commit c_transcript_run c_transcript_spec_run
   c_ipa_create c_ipa_check c_mp_create c_mp_check c_challenge t_new
